@@ -9,6 +9,8 @@
 #include <cinttypes>
 #include <string>
 #include <vector>
+#include <atomic>
+#include <thread>
 #include <cfenv>
 #include <sstream>
 #include <iostream>
@@ -338,6 +340,27 @@ static void op_decomp(const V &a, V &r) {   // l B N x1..xN
     for (int j = 0; j < N; j++) r.push_back(in->coefsT[j]);
     delete_IntPolynomial_array(l, res); delete_TorusPolynomial(in); delete_TGswParams(gp); delete_TLweParams(tp);
 }
+// decompmt l B N threads iters seed : several threads decompose their own polynomials with ONE shared const TGswParams object (as threads that
+//   evaluate gates under one bootstrapping key do); every result is compared with the sequential reference.  prints mismatching calls, calls
+static void op_decompmt(const V &a, V &r) {
+    int l = a[0], B = a[1], N = a[2], nt = a[3], iters = a[4]; unsigned seed = (unsigned) a[5];
+    TLweParams *tp = new_TLweParams(N, 1, 0., 0.25); const TGswParams *gp = new_TGswParams(l, B, tp);
+    std::vector<TorusPolynomial *> in(nt); std::vector<IntPolynomial *> ref(nt), out(nt);
+    srand(seed);
+    for (int t = 0; t < nt; t++) { in[t] = new_TorusPolynomial(N); ref[t] = new_IntPolynomial_array(l, N); out[t] = new_IntPolynomial_array(l, N);
+        for (int j = 0; j < N; j++) in[t]->coefsT[j] = (int32_t) (((unsigned) rand() << 16) ^ (unsigned) rand());
+        tGswTorus32PolynomialDecompH(ref[t], in[t], gp); }
+    std::atomic<long> bad(0), calls(0);
+    std::vector<std::thread> th;
+    for (int t = 0; t < nt; t++) th.emplace_back([&, t]() {
+        for (int it = 0; it < iters; it++) { tGswTorus32PolynomialDecompH(out[t], in[t], gp); calls++;
+            bool same = true; for (int p = 0; p < l && same; p++) for (int j = 0; j < N; j++) if (out[t][p].coefs[j] != ref[t][p].coefs[j]) { same = false; break; }
+            if (!same) bad++; } });
+    for (auto &x : th) x.join();
+    r.push_back(bad); r.push_back(calls);
+    for (int t = 0; t < nt; t++) { delete_IntPolynomial_array(l, out[t]); delete_IntPolynomial_array(l, ref[t]); delete_TorusPolynomial(in[t]); }
+    delete_TGswParams((TGswParams *) gp); delete_TLweParams(tp);
+}
 static void op_tlwedecomp(const V &a, V &r) {   // l B k N coefs((k+1)*N)
     int l = a[0], B = a[1], k = a[2], N = a[3];
     TLweParams *tp = new_TLweParams(N, k, 0., 0.25);
@@ -406,6 +429,7 @@ int main(int argc, char **argv) {
         else if (op == "kssweep") op_kssweep(a, r);
         else if (op == "decomp") op_decomp(a, r);
         else if (op == "tlwedecomp") op_tlwedecomp(a, r);
+        else if (op == "decompmt") op_decompmt(a, r);
         else if (op == "tgswparams") op_tgswparams(a, r);
         else if (op == "decompsweep") op_decompsweep(a, r);
         else { puts("NOOP"); fflush(stdout); continue; }
